@@ -58,7 +58,9 @@ def stepLine (s : S) (req resp : List String) : S × List String :=
           let s := { s with ops := s.ops + 1 }
           match ml with
           | .error _ =>
-            let d := if implLoad == "err" then [] else [s!"DIFF mut Load: model=err impl={implLoad}"]
+            let d := if implLoad == "err" then [] else
+              [s!"DIFF mut Load: model=err impl={implLoad}",
+               "MON C18 a malformed duration label (rejected by time.ParseDuration and strconv.ParseInt) was accepted by Load"]
             ({ s with decodeErrs := s.decodeErrs + 1, nontrivial := true }, d)
           | .ok ms =>
             let d0 := if implLoad == "ok" then [] else [s!"DIFF mut Load: model=ok impl={implLoad}"]
